@@ -62,4 +62,62 @@ CLAIMS = {
         design="4/C35"),
 }
 
-NOT_YET = "check not built yet in this round (planned in DESIGN.md section 4)"
+_REL_NOTE = ("Trusts TLC, spec/rel/Fx.tla two-limb arithmetic and the Python projection (A^-1 T A^-T, "
+             "round(x/scale*1e10)); point group = definitional group of the observed world (World.OpsRT). PSD is decided "
+             "on all integer directions in -3..3 plus a certificate direction, not by an exact eigenvalue bound.")
+
+CLAIMS.update({
+    "C18": dict(
+        technique="definitional integer crystal model (World.tla) evaluated by TLC on the world read back from each "
+                  "constructed Crystal; every reported operation projected to integers and checked clause by clause",
+        text="Catalogue + random decorated 2D/3D worlds (1-3 species, scalar and vector spins, strained metrics) in "
+             "random orientations x {default, noreduce, NOSYM, jitter}: TLC decides isometry, atom/species/spin mapping, "
+             "indexmap = geometric permutation, Cartesian = lattice rotation, distinctness and the group axioms modulo "
+             "lattice translations (Check_C18.tla). Completeness vs the definitional group is reported, not judged.",
+        note="Trusts TLC and the projection (integrality asserted, never rounded silently). Spin compatibility is "
+             "'up to one real global phase per operation' (the library's documented semantics).",
+        design="4/C18"),
+    "C03": dict(
+        technique="transported tensors (exact fixed point) checked by TLC: symmetry, invariance under the definitional "
+                  "point group (integer matrices), PSD (Check_Rel.tla)",
+        text="Interstitial diffusivity, rank-4 elastodiffusion tensor and all four vacancy-mediated tensors (default, "
+             "fast-exchange and forced large-omega2 algorithm) on catalogue worlds in random orientations with dyadic "
+             "data incl. rate ratios 2^+-20; every clause decided by TLC in lattice coordinates.",
+        note=_REL_NOTE, design="4/C03"),
+    "C04": dict(
+        technique="TLA+ protocol Invariance.tla (all transformation sequences, lemma RateExponent model-checked); every "
+                  "node of its TLC state graph replayed on real calculators; scaling relation decided by Check_Rel.tla",
+        text="Species reference shifts, joint prefactor scalings, kT co-scalings, rate scalings and symmetry-preserving "
+             "site displacements (depth <= 2-3) on interstitial and vacancy-mediated calculators; result(node) = "
+             "2^rate * result(root) entrywise.",
+        note=_REL_NOTE + " Displacements are replayed for Interstitial only (network carried over in lattice form).",
+        design="4/C04"),
+    "C05": dict(
+        technique="single-class transition-state decrements enumerated; PSD of the difference decided by TLC "
+                  "(Check_Rel.tla)",
+        text="Every interstitial / omega0 / omega1 / omega2 class lowered individually by 1 or 3 levels from random "
+             "dyadic bases, including bases in the large-omega2 regime (default and forced).",
+        note=_REL_NOTE, design="4/C05"),
+    "C06": dict(
+        technique="tracer data from maketracerpreene; identities Lsv=-L0vv, L1vv=0, 0<=Lss<=L0vv decided by TLC "
+                  "(Check_Rel.tla)",
+        text="All vacancy worlds (Bravais, multi-site, origin states), Nthermo 1-2, random vacancy site energies and "
+             "omega0 barriers per class.",
+        note=_REL_NOTE + " Worlds with origin states use the tolerance measured for the default k-mesh (1e-4..2e-5).",
+        design="4/C06"),
+    "C07": dict(
+        technique="one tag dictionary given to calculators of range N and N+1; equality of all four tensors decided by "
+                  "TLC (Check_Rel.tla)",
+        text="Random dyadic data on every class of the smaller calculator under random member tags, random omega1/2 "
+             "classes left to the default back-fill; (1,2) and (2,3) range pairs.",
+        note=_REL_NOTE, design="4/C07"),
+    "C08": dict(
+        technique="omega2 prefactor sweep 1e-3..1e16 x {standard, large, default}; agreement, default-is-one-of, "
+                  "finiteness/symmetry and smoothness decided by TLC (Check_Rel.tla)",
+        text="Agreement of the two algorithms for k<=8 to 1e-6, default bit-equal to one forced result, default finite "
+             "and symmetric, consecutive decades within 1e-4 for k>=9.",
+        note=_REL_NOTE + " Smoothness of Lsv/L1vv is a recorded known finding (precision loss ~1e-17*omega2).",
+        design="4/C08"),
+})
+
+NOT_YET ="check not built yet in this round (planned in DESIGN.md section 4)"
